@@ -9,7 +9,10 @@ package dastard
 // every channel's stream into UnwrapInPlace calls by reader-tick batching (latency skew, a
 // lagging group, stalled and slow reads). In the same runs stand-alone PhaseUnwrapper
 // instances with drawn fraction bits / dropped bits / bias / reset interval are fed exactly
-// the batches one channel saw, and the whole stream in one call.
+// the batches one channel saw, and the whole stream in one call. The options are drawn to their
+// legal limits (reset intervals around and far beyond 2^16, PulseSign of any magnitude, long and
+// odd InvertChan lists); one history in eight is a one-channel source with ~10^5 samples whose
+// signal leaves the home offset once and stays away, so that the long reset intervals are reached.
 //
 // Oracle = an integer checker written from the property statement (c12Check); it never calls
 // UnwrapInPlace. Definitions taken from the meaning of the options as the code documents
@@ -215,6 +218,58 @@ func c12Signal(n int, unit int) []uint16 {
 	return out
 }
 
+// c12Excursion makes a stream that leaves the home offset once and stays away: quiet around a
+// level, one jump of 0.55–0.7 ϕ0 that the unwrapper with parameters p takes for a wrap (the
+// direction is chosen against the bias, the level so that the 16-bit phase does not wrap at the
+// jump), then quiet again for the rest of the stream — a flux jump that does not come back.
+// Only the reset interval brings the output home again.
+func c12Excursion(n int, p c12Params) []uint16 {
+	seed := uint32(simrt.Draw(1 << 20))
+	jump := 36045 + simrt.Draw(9830)  // 0.55 … 0.70 ϕ0 in raw units
+	level := 3277 + simrt.Draw(13107) // 0.05 … 0.25 ϕ0
+	noise := []int{0, 3, 40, 400}[simrt.Draw(4)]
+	at := 1 + simrt.Draw(1+n/16)
+	down := p.biasLevel > 0 || (p.biasLevel == 0 && simrt.Draw(2) == 1)
+	low := level
+	if down { // climb to a high level in small steps (the unwrapper starts from 0), jump down
+		level = 65535 - level
+		jump = -jump
+		at += 40
+	}
+	out := make([]uint16, n)
+	for k := range out {
+		v := level
+		if down && low+k*2600 < level {
+			v = low + k*2600 // 0.04 ϕ0 per sample
+		}
+		if k >= at {
+			v += jump
+		}
+		if noise > 0 {
+			v += int(abacoSimHash(seed, uint32(k), 9, 0xc12)>>4)%(2*noise+1) - noise
+		}
+		out[k] = uint16(v)
+		if p.invert {
+			out[k] ^= 0xffff
+		}
+	}
+	return out
+}
+
+// c12DrawResetAfter draws a reset interval. Any positive int is legal when unwrapping is on: small
+// ones, the default 20000, values around 2^16 and far beyond (a one-second relock time at Abaco
+// rates of 100–250 kHz is 100000–250000 samples), the largest ints. With unwrapping off the
+// option is ignored, so zero (what a client that omits it sends) and negative values are legal too.
+func c12DrawResetAfter(unwrap bool) int {
+	menu := []int{3, 1, 2, 5, 10, 30, 100, 20000, 3, 1, 2, 5, 10, 30, 100, 20000,
+		65534, 65535, 65536, 65537, 65536 + 3, 65536 + 10, 65536 + 40, 2*65536 + 1, 3 * 65536, 100000, 250000,
+		1<<31 - 1, 1 << 31, 1<<32 + 2, math.MaxInt64, math.MaxInt64 - 65533}
+	if !unwrap {
+		menu = append(menu, 0, 0, -1, -65536, math.MinInt64)
+	}
+	return menu[simrt.Draw(len(menu))]
+}
+
 // c12DrawOptions draws the unwrap options of one run. InvertChan is what a client may send:
 // any order, duplicates, channel numbers the source does not have, empty, a single entry.
 func c12DrawOptions(w *abacoSimWorld) AbacoUnwrapOptions {
@@ -222,13 +277,28 @@ func c12DrawOptions(w *abacoSimWorld) AbacoUnwrapOptions {
 	opts.RescaleRaw = simrt.Draw(5) != 4
 	opts.Unwrap = opts.RescaleRaw && simrt.Draw(5) != 4
 	opts.Bias = simrt.Draw(2) == 1
-	opts.ResetAfter = []int{3, 1, 2, 5, 10, 30, 100, 20000}[simrt.Draw(8)]
-	opts.PulseSign = 1
-	if simrt.Draw(2) == 1 {
-		opts.PulseSign = -1
-	}
+	opts.ResetAfter = c12DrawResetAfter(opts.Unwrap)
+	// the sign of PulseSign is what counts; 0 has none and is not generated
+	opts.PulseSign = []int{1, -1, 1, -1, 1, -1, 2, -2, 1000, -7, math.MaxInt32, math.MinInt32, math.MaxInt64, math.MinInt64}[simrt.Draw(14)]
 	var list []int
-	switch simrt.Draw(5) {
+	switch simrt.Draw(7) {
+	case 5: // every channel
+		for _, g := range w.groups {
+			for c := 0; c < g.nchan; c++ {
+				list = append(list, g.firstChan+c)
+			}
+		}
+	case 6: // a long list: every channel many times over, between numbers that belong to no group
+		for rep := 0; rep < 40; rep++ {
+			for _, g := range w.groups {
+				for c := 0; c < g.nchan; c++ {
+					if simrt.Draw(4) != 3 {
+						list = append(list, g.firstChan+c)
+					}
+				}
+			}
+			list = append(list, []int{math.MaxInt64, math.MinInt64, math.MaxInt32, -1, 1 << 16, 1 << 32}[rep%6])
+		}
 	case 0: // a subset of the channels
 		for _, g := range w.groups {
 			for c := 0; c < g.nchan; c++ {
@@ -276,7 +346,9 @@ func c12DrawOptions(w *abacoSimWorld) AbacoUnwrapOptions {
 // options (new ones, or exactly the previous run's) and its own input, and must satisfy the
 // oracle from a fresh state — the output of a run depends on that run's options and input only.
 func c12Body(env *simrt.Env) {
-	w := newAbacoSimWorld(env, "C12")
+	// one run in eight is a long-stream run: one channel, ~10^5 samples, so that the reset intervals at and
+	// beyond 2^16 are reached by a signal that stays away from the home offset
+	w := newAbacoSimWorldOf(env, "C12", simrt.Draw(8) == 7)
 	w.lowZero = true
 	var opts AbacoUnwrapOptions
 	for {
@@ -304,10 +376,6 @@ func c12Body(env *simrt.Env) {
 // c12Run is one Configure/Start/…/Stop cycle with the given options.
 func c12Run(env *simrt.Env, w *abacoSimWorld, opts AbacoUnwrapOptions) {
 	nframes := w.npackets * w.fpp
-	w.signal = make([][]uint16, w.nchan)
-	for c := range w.signal {
-		w.signal[c] = c12Signal(nframes, 16)
-	}
 	env.Op("%s", w.describe())
 	env.Op("unwrap options %+v", opts)
 
@@ -334,6 +402,26 @@ func c12Run(env *simrt.Env, w *abacoSimWorld, opts AbacoUnwrapOptions) {
 			params[g.chanOff+c] = p
 		}
 	}
+	w.signal = make([][]uint16, w.nchan)
+	for c := range w.signal {
+		if w.long && simrt.Draw(4) != 3 {
+			w.signal[c] = c12Excursion(nframes, params[c])
+		} else {
+			w.signal[c] = c12Signal(nframes, 16)
+		}
+	}
+	if w.long {
+		simrt.Hit("long-stream-run")
+	}
+	if opts.Unwrap && opts.ResetAfter >= 65535 {
+		simrt.Hit("reset-interval-2^16-or-more")
+	}
+	if opts.PulseSign != 1 && opts.PulseSign != -1 {
+		simrt.Hit("pulse-sign-not-unit")
+	}
+	if !opts.Unwrap && opts.ResetAfter <= 0 {
+		simrt.Hit("reset-interval-not-positive-unwrap-off")
+	}
 	if opts.Bias && opts.Unwrap {
 		simrt.Hit("biased")
 	}
@@ -353,7 +441,7 @@ func c12Run(env *simrt.Env, w *abacoSimWorld, opts AbacoUnwrapOptions) {
 
 	// ---- every channel of the source against the checker, and against a one-call run
 	raws := make([][]RawType, w.nchan)
-	resets, edges, away := 0, 0, 0
+	resets, edges, away, longResets := 0, 0, 0, 0
 	for _, g := range w.groups {
 		for c := 0; c < g.nchan; c++ {
 			bc := g.chanOff + c
@@ -372,6 +460,9 @@ func c12Run(env *simrt.Env, w *abacoSimWorld, opts AbacoUnwrapOptions) {
 			edges += v.edges
 			if v.awayMax > away {
 				away = v.awayMax
+			}
+			if v.resets > 0 && params[bc].resetAfter >= 65535 {
+				longResets++
 			}
 			p := params[bc]
 			if p.enable || p.drop > 0 || p.invert {
@@ -401,7 +492,7 @@ func c12Run(env *simrt.Env, w *abacoSimWorld, opts AbacoUnwrapOptions) {
 	// ---- stand-alone instances on one channel's stream, same batches
 	for i := 0; i < 2; i++ {
 		bc := simrt.Draw(w.nchan)
-		p := c12Params{fb: uint(13 + simrt.Draw(4)), resetAfter: []int{1, 2, 3, 7, 25, 20000}[simrt.Draw(6)], pulseSign: 1 - 2*simrt.Draw(2), invert: simrt.Draw(3) == 2}
+		p := c12Params{fb: uint(13 + simrt.Draw(4)), resetAfter: []int{1, 2, 3, 7, 25, 20000, 65535, 65536, 65536 + 7, 100000, math.MaxInt64}[simrt.Draw(11)], pulseSign: 1 - 2*simrt.Draw(2), invert: simrt.Draw(3) == 2}
 		p.drop = uint(simrt.Draw(7))
 		p.enable = p.drop > 0 && simrt.Draw(5) != 4
 		half := 1 << (p.fb - 1)
@@ -438,6 +529,12 @@ func c12Run(env *simrt.Env, w *abacoSimWorld, opts AbacoUnwrapOptions) {
 		}
 		resets += v.resets
 		edges += v.edges
+		if v.awayMax > away {
+			away = v.awayMax
+		}
+		if v.resets > 0 && p.resetAfter >= 65535 {
+			longResets++
+		}
 		if p.fb < 16 {
 			simrt.Hit("fraction-bits-below-16")
 		}
@@ -450,6 +547,15 @@ func c12Run(env *simrt.Env, w *abacoSimWorld, opts AbacoUnwrapOptions) {
 	}
 	if away >= 3 {
 		simrt.Hit("away-from-home-3+")
+	}
+	if away >= 30000 {
+		simrt.Hit("away-from-home-30000+")
+	}
+	if away >= 65535 {
+		simrt.Hit("away-from-home-65535+")
+	}
+	if longResets > 0 {
+		simrt.Hit("automatic-reset-after-65535+")
 	}
 	env.Sample(map[string]interface{}{"groups": len(w.groups), "channels": w.nchan, "frames_per_packet": w.fpp, "packets_per_group": w.npackets,
 		"batches": len(o.lens), "frames_out": o.emitted, "options": fmt.Sprintf("%+v", opts), "automatic_resets": resets, "edge_steps": edges,
